@@ -1,5 +1,7 @@
 """C15 -- parallel sources split their input exactly once across replicas."""
 import z3
+from mirsym.executor import PyObj, Unsupported
+from mirsym.values import Enum
 from lib.runner import Task
 from mirsym.values import Int, Agg
 from mirsym.explore import check
@@ -215,3 +217,118 @@ def classify(t, v):   # noqa: F811
     if t.factory == 'file_source_harness':
         return 'file/' + v['msg'][:50]
     return _range_classify(t, v)
+
+
+# ------------------------------------------------------------------------------------ non-parallel sources
+
+class ChanRx(PyObj):
+    """flume::Receiver of a ChannelSource: `items` are delivered in order; the producer may be slow
+    (try_recv answers Empty for a chosen number of polls before each item) and disconnects at the end."""
+    name = 'Receiver'
+
+    def __init__(self, items):
+        self.items = list(items)
+        self.empties = None
+        self.flushed = True        # FlushBatch emitted since the last delivered item?
+        self.blocking_without_flush = False
+
+    def trait_call(self, ex, trait, method, args):
+        from mirsym.models import ok, err
+        if method == 'try_recv':
+            if self.empties is None:
+                self.empties = [0, 1, 8, 9, 10][ex.choose(5, 'polls while empty')]
+            if self.empties > 0:
+                self.empties -= 1
+                return err(Enum('flume::TryRecvError', 'Empty', 0, []))
+            self.empties = None
+            if self.items:
+                self.flushed = False
+                return ok(self.items.pop(0))
+            return err(Enum('flume::TryRecvError', 'Disconnected', 1, []))
+        if method == 'recv':
+            if not self.flushed:
+                self.blocking_without_flush = True
+            self.empties = None
+            if self.items:
+                self.flushed = False
+                return ok(self.items.pop(0))
+            return err(Enum('flume::RecvError', 'Disconnected', 0, []))
+        raise Unsupported('ChanRx ' + method)
+
+
+from mirsym.executor import PyObj, Unsupported     # noqa: E402
+from mirsym.values import Enum                      # noqa: E402
+
+
+def channel_source_harness(w, n):
+    from mirsym import hlib
+    from mirsym.values import Ref
+    from mirsym.explore import Violation
+    nxt = w.impls[('Operator', 'ChannelSource')]['next'][0]
+
+    def h(ex):
+        rx = ChanRx([Int('u64', i + 1) for i in range(n)])
+        src = hlib.mk_struct(w, 'ChannelSource', rx=rx, terminated=False, retry_count=Int('u8', 0))
+        holder = [src]
+        out = []
+        for _ in range(4 * n + 40):
+            el = ex.call_function(nxt, [Ref(holder, 0)])
+            if el.variant == 'FlushBatch':
+                rx.flushed = True
+            out.append(el)
+            if el.variant == 'Terminate':
+                break
+        else:
+            raise Violation('ChannelSource does not terminate after the channel is closed', hlib._wit(ex))
+        sx = {'n': n, 'output': [repr(e) for e in out]}
+        if rx.blocking_without_flush:
+            raise Violation('ChannelSource blocks on the channel without having emitted FlushBatch after the last '
+                            'item: buffered elements downstream are withheld', hlib._wit(ex), sx)
+        kinds = [e.variant for e in out if e.variant != 'FlushBatch']
+        if kinds != ['Item'] * n + ['FlushAndRestart', 'Terminate']:
+            raise Violation('ChannelSource output is not all items once, then FlushAndRestart, Terminate',
+                            hlib._wit(ex), sx)
+        if [e.fields[0].v for e in out if e.variant == 'Item'] != list(range(1, n + 1)):
+            raise Violation('ChannelSource lost, duplicated or reordered items', hlib._wit(ex), sx)
+        if any(e.variant == 'FlushBatch' for e in out):
+            hlib.cover(ex, 'flush_batch')
+        return sx
+    return h
+
+
+def iterator_source_harness(w, n):
+    from mirsym import hlib
+    from mirsym.values import Ref
+    from mirsym.explore import Violation
+    from mirsym.models_iter import ListIter
+    new = w.impls[(None, 'IteratorSource')]['new'][0]
+    nxt = w.impls[('Operator', 'IteratorSource')]['next'][0]
+
+    def h(ex):
+        items = [ex.fresh_int('u64', 'item%d' % i) for i in range(n)]
+        src = ex.call_function(new, [ListIter(items)])
+        out = hlib.drive(ex, nxt, [src], n + 4)
+        hlib.check_grammar(ex, out, 1, 'IteratorSource output')
+        data = [e for e in out if e.variant == 'Item']
+        if len(data) != n or any(a.fields[0].v is not b.v and str(a.fields[0].v) != str(b.v) for a, b in zip(data, items)):
+            raise Violation('IteratorSource does not emit every item exactly once in order', hlib._wit(ex),
+                            {'output': [repr(e) for e in out]})
+        hlib.cover(ex, 'end')
+        return {'n': n, 'output': [repr(e) for e in out]}
+    return h
+
+
+_file_tasks = TASKS
+
+
+def TASKS(tier):     # noqa: F811
+    ts = _file_tasks(tier)
+    for n in ([0, 2] if tier == 'quick' else [0, 1, 2, 3, 4]):
+        ts.append(Task('channel_source_%d' % n, 'channel_source_harness', {'n': n},
+                       bounds='ChannelSource::next until Terminate, %d items, before each item the channel answers '
+                              'Empty for 0/1/8/9/10 polls, then disconnects' % n, role='channel_source',
+                       opts={'covers': ['flush_batch'] if n else []}, budget=300))
+        ts.append(Task('iterator_source_%d' % n, 'iterator_source_harness', {'n': n},
+                       bounds='IteratorSource over %d symbolic items' % n, role='iterator_source',
+                       opts={'covers': ['end']}))
+    return ts
